@@ -51,6 +51,11 @@ func vestRunSeed(prop string, seed uint64, tier string) *Outcome {
 	r := kernel.NewRng(seed)
 	spec, w := buildVestingWorld(r.Fork(20), vestingWorldOpts{MaxAmtExp: 24, GenesisPools: true, GenesisVAccs: true, MultiDenomAcc: true})
 	spec.Distributor = simpleDistributorJSON(kernel.ActorBech("dist-sink"))
+	// some base accounts exist without a public key (funded, never signed)
+	spec.NoPubKey = append(spec.NoPubKey, spec.Clients[len(spec.Clients)-1])
+	if r.Bool() {
+		spec.NoPubKey = append(spec.NoPubKey, spec.Clients[len(spec.Clients)-2])
+	}
 	tr := &kernel.Trace{Profile: prop, Seed: seed, Spec: *spec}
 	rr := r.Fork(21)
 	src := &genSource{rng: rr, nBlocks: rr.Range(pf.Blocks[0], pf.Blocks[1]), Cadence: w.cadence, MaxTxs: pf.MaxTxs, PTx: 0.85, TxGens: w.txGens(pf.Weights)}
